@@ -136,6 +136,9 @@ func checkC05(e *Env) {
 		}
 		return ""
 	})
+	// the concurrent flavour of this monitor (C12 is the full treatment)
+	concCalls := e.concurrentSmoke(drv, "C05", e.smokePool("C05", "enc"), e.pick(2, 12), e.pick(300, 1500))
+
 	// every single-bit flip must change the mnemonic
 	flipsCompared := 0
 	for g, fs := range flipSent {
@@ -158,17 +161,18 @@ func checkC05(e *Env) {
 		}
 	}
 	e.WriteEvidence("exploration", map[string]any{
-		"evaluations":                     stats.Ops,
-		"distinct_nontrivial":             dist.Len(),
-		"rule":                            "a case is (entropy, language): the C01 corpus plus, for K base entropies per language x size (K=4 quick, 50 thorough; the first base is all-zero), the base and all ENT single-bit flips; each returned sentence is decoded by the independent bit-array decoder over the golden lists and compared with the entropy passed in; a run-wide map (language, sentence) -> entropy detects collisions; all cases are non-trivial; distinct = distinct (entropy, language)",
-		"samples":                         smp.List(),
-		"decodes_per_language":            decodes.Map(),
-		"flip_groups":                     len(baseSent),
-		"single_bit_flips_compared":       flipsCompared,
-		"bit_positions_flipped_per_width": bitsCovered,
-		"sentences_in_collision_map":      len(seen),
-		"repeated_sentences_examined":     collisionsExamined,
-		"calls_inside_histories":          histCalls,
+		"evaluations":                      stats.Ops,
+		"distinct_nontrivial":              dist.Len(),
+		"calls_repeated_under_concurrency": concCalls,
+		"rule":                             "a case is (entropy, language): the C01 corpus plus, for K base entropies per language x size (K=4 quick, 50 thorough; the first base is all-zero), the base and all ENT single-bit flips; each returned sentence is decoded by the independent bit-array decoder over the golden lists and compared with the entropy passed in; a run-wide map (language, sentence) -> entropy detects collisions; all cases are non-trivial; distinct = distinct (entropy, language)",
+		"samples":                          smp.List(),
+		"decodes_per_language":             decodes.Map(),
+		"flip_groups":                      len(baseSent),
+		"single_bit_flips_compared":        flipsCompared,
+		"bit_positions_flipped_per_width":  bitsCovered,
+		"sentences_in_collision_map":       len(seen),
+		"repeated_sentences_examined":      collisionsExamined,
+		"calls_inside_histories":           histCalls,
 		"sentences_from_entropies_carved_out_of_one_buffer": slabSentences,
 		"children":     stats.Children,
 		"child_deaths": stats.Deaths,
